@@ -223,6 +223,92 @@ class AbFn(Fn):
         return [("cas", old, new, okb, x, errb, ln)]
 
 
+def check_layout(parser, abfns, path, known):
+    """shape of AtomicBucket::layout and AtomicBucket::with_capacity; returns the text of `gen_ab_layout`"""
+    def lost(e, what): raise Lost(e[1], what)
+    f = check_sig(abfns, "AtomicBucket", "layout", ["NonZeroUsize"], "LassoResult<Layout>", path)
+    par = f[4][0][0]
+    fnl = AbFn("layout", known, set()); fnl.sc.bind(par, "nz", f[1])
+    body = parser.fn_body(f)
+    stmts = list(body[2]); header = []; names = []
+    while stmts and stmts[0][0] == "let" and strip(stmts[0][4])[0] == "call" and strip(stmts[0][4])[2][0] == "path" \
+            and len(strip(stmts[0][4])[2][2]) == 2 and strip(stmts[0][4])[2][2][0] == "Layout" \
+            and isinstance(strip(stmts[0][4])[2][2][1], tuple) and strip(stmts[0][4])[2][2][1][0] == "new" and not strip(stmts[0][4])[3]:
+        header.append(strip(stmts[0][4])[2][2][1][1]); names.append(stmts[0][2][2]); stmts = stmts[1:]
+    if len(header) != 3: lost(body, "AtomicBucket::layout does not start with three `Layout::new::<T>()` header layouts")
+
+    def layout_args(c, fname):
+        c = strip(c)
+        if not (c[0] == "call" and is_path(c[2], "Layout", fname) and len(c[3]) == 2): return None
+        al = strip(c[3][1])
+        if not (al[0] == "call" and al[2][0] == "path" and isinstance(al[2][2][-1], tuple) and al[2][2][-1] == ("align_of", "u8")):
+            lost(c, "alignment argument is not align_of::<u8>()")
+        return fnl.num(c[3][0])
+    asserted = None
+    if stmts and stmts[0][0] == "expr" and stmts[0][2][0] == "macro" and stmts[0][2][2] == "debug_assert" and len(stmts[0][2][3]) == 1:
+        a = strip(stmts[0][2][3][0])
+        if a[0] == "mcall" and a[3] == "is_ok" and not a[4]: asserted = layout_args(a[2], "from_size_align")
+        if asserted is None: lost(stmts[0], "debug_assert! in layout is not `Layout::from_size_align(..).is_ok()`")
+        stmts = stmts[1:]
+    if len(stmts) != 1 or stmts[0][0] != "let" or body[3] is None: lost(body, "AtomicBucket::layout: expected `let data = ..;` and the extend chain")
+    dname = stmts[0][2][2]; e1 = strip(stmts[0][4]); kind = None
+    if e1[0] == "try":
+        m = strip(e1[2])
+        if m[0] == "mcall" and m[3] == "map_err" and len(m[4]) == 1 and m[4][0][0] == "closure" and m[4][0][2] == ["_"]:
+            size = layout_args(m[2], "from_size_align")
+            if size is not None and asserted is None: kind = "LayoutChecked %s" % fnl.errkind(m[4][0][3])
+    else:
+        size = layout_args(e1, "from_size_align_unchecked")
+        if size is not None: kind = "LayoutUnchecked (%s)" % ("Some (%s)" % asserted if asserted else "None")
+    if kind is None: lost(stmts[0], "data layout is neither the checked nor the unchecked recognised form")
+    # next.extend(len).and_then(|(l, _)| l.extend(cap)).and_then(|(l, _)| l.extend(data)).map(|(l, _)| l.pad_to_align()).map_err(|_| ..)
+    t = strip(body[3])
+
+    def clos(c, meth, arg):
+        if not (c[0] == "closure" and len(c[2]) == 1 and isinstance(c[2][0], tuple) and len(c[2][0]) == 2 and c[2][0][1] == "_"): return False
+        b = strip(c[3])
+        return b[0] == "mcall" and b[3] == meth and is_path(strip(b[2]), c[2][0][0]) and \
+            ((arg is None and not b[4]) or (arg is not None and len(b[4]) == 1 and is_path(strip(b[4][0]), arg)))
+    ok = t[0] == "mcall" and t[3] == "map_err" and len(t[4]) == 1 and t[4][0][0] == "closure" and t[4][0][2] == ["_"]
+    if ok:
+        err = fnl.errkind(t[4][0][3]); m = strip(t[2])
+        ok = m[0] == "mcall" and m[3] == "map" and len(m[4]) == 1 and clos(m[4][0], "pad_to_align", None)
+    if ok:
+        a2 = strip(m[2]); ok = a2[0] == "mcall" and a2[3] == "and_then" and len(a2[4]) == 1 and clos(a2[4][0], "extend", dname)
+    if ok:
+        a1 = strip(a2[2]); ok = a1[0] == "mcall" and a1[3] == "and_then" and len(a1[4]) == 1 and clos(a1[4][0], "extend", names[2])
+    if ok:
+        x = strip(a1[2]); ok = x[0] == "mcall" and x[3] == "extend" and is_path(strip(x[2]), names[0]) and len(x[4]) == 1 and is_path(strip(x[4][0]), names[1])
+    if not ok: lost(t, "AtomicBucket::layout does not end with the extend / pad_to_align / map_err chain")
+    # with_capacity: let layout = Self::layout(capacity)?; .. alloc(layout) ..; fields len := 0, capacity := capacity
+    w = check_sig(abfns, "AtomicBucket", "with_capacity", ["NonZeroUsize"], "LassoResult<UniqueBucketRef>", path)
+    wp = w[4][0][0]; wb = parser.fn_body(w)
+    s0 = wb[2][0] if wb[2] else None
+    if not (s0 and s0[0] == "let" and strip(s0[4])[0] == "try" and strip(strip(s0[4])[2])[0] == "call"
+            and names_of(strip(strip(s0[4])[2])[2]) in (["Self", "layout"], ["AtomicBucket", "layout"])
+            and len(strip(strip(s0[4])[2])[3]) == 1 and is_path(strip(strip(strip(s0[4])[2])[3][0]), wp)):
+        lost(w, "AtomicBucket::with_capacity does not start with `let layout = Self::layout(capacity)?;`")
+    writes = {}
+
+    def walk(e):
+        if isinstance(e, tuple):
+            if e and e[0] == "mcall" and e[3] == "write" and len(e[4]) == 1 and e[2][0] == "macro" and e[2][2] == "addr_of_mut" and len(e[2][3]) == 1:
+                tgt = strip(e[2][3][0])
+                if tgt[0] == "field": writes[tgt[3]] = strip(e[4][0])
+            for x in e: walk(x)
+        elif isinstance(e, list):
+            for x in e: walk(x)
+    walk(wb)
+    if set(writes) != {"next", "len", "capacity"}: lost(w, "with_capacity does not initialise exactly next, len, capacity")
+    l0 = writes["len"]
+    if not (l0[0] == "call" and is_path(l0[2], "AtomicUsize", "new") and len(l0[3]) == 1 and strip(l0[3][0])[0] == "lit" and strip(l0[3][0])[2] == 0):
+        lost(w, "with_capacity does not initialise len with AtomicUsize::new(0)")
+    if not is_path(writes["capacity"], wp): lost(w, "with_capacity does not initialise capacity with its argument")
+    return "(* %s:%d-%d  fn AtomicBucket::layout (shape only), %d-%d fn AtomicBucket::with_capacity (shape only) *)\n" \
+           "Definition gen_ab_layout : ablayout :=\n  mkAbLayout [%s] (%s)\n    (* data size *) (%s) %s.\n" % (
+               "src/arenas/atomic_bucket.rs", f[1], f[7], w[1], w[7], "; ".join(q(h) for h in header), kind, size, err)
+
+
 def app(stmts, ind, rel):
     pad = " " * ind
     if not stmts: return "ASkip"
@@ -266,7 +352,7 @@ def run(repo, out):
         b = body_of(uref, "UniqueBucketRef", "len", ["&self"], "usize")
         if len_exclusive(b): ok_u.add("len")
 
-        parts = []
+        parts = [check_layout(parser, impl_fns(items, "AtomicBucket", path), path, known)]
         for fns, ty, name, gen, params, ret, rk, kinds, ok in [
                 (bref, "BucketRef", "try_inc_length", "gen_ab_try_inc_length", ["&self", "usize"], "Result<usize,()>", "try", ["num"], ok_b),
                 (uref, "UniqueBucketRef", "set_len", "gen_ab_set_len", ["&mut self", "usize"], None, "unit", ["num"], ok_u),
@@ -294,6 +380,6 @@ Open Scope string_scope.
 Open Scope N_scope.
 
 """ % (path, ", ".join(sorted(ok_b)), ", ".join(sorted(ok_u)))
-    tail = "\n#[global] Hint Unfold gen_ab_try_inc_length gen_ab_set_len gen_ab_push_slice : arenagen.\n"
+    tail = "\n#[global] Hint Unfold gen_ab_layout gen_ab_try_inc_length gen_ab_set_len gen_ab_push_slice : arenagen.\n"
     open(os.path.join(out, "AtomicBucketGen.v"), "w").write(hdr + "\n".join(parts) + tail)
-    print("rust2coq: atomic_bucket: 3 definitions -> %s" % os.path.join(out, "AtomicBucketGen.v"))
+    print("rust2coq: atomic_bucket: 4 definitions -> %s" % os.path.join(out, "AtomicBucketGen.v"))
